@@ -85,7 +85,7 @@ func classifyErr(err error, o *totOut) {
 	}
 }
 
-// runTotal runs the lexer loop and all six parser entry points on text.
+// runTotal runs the lexer loop and the parser entry points (unlimited, limited, negative limit, built-in sources) on text.
 func runTotal(text string, only string) totCase {
 	tc := totCase{N: -1}
 	// lexer loop
@@ -120,6 +120,15 @@ func runTotal(text string, only string) totCase {
 		{"ParseSchemaWithLimit(3)", func() (bool, error) { d, e := parser.ParseSchemaWithLimit(src(), 3); return d != nil, e }},
 		{"ParseSchemas", func() (bool, error) { d, e := parser.ParseSchemas(src()); return d != nil, e }},
 		{"ParseSchemasWithLimit(2)", func() (bool, error) { d, e := parser.ParseSchemasWithLimit(2, src()); return d != nil, e }},
+		// a source flagged built-in (a server's own prelude) goes through the same entry points
+		{"ParseSchema(built-in source)", func() (bool, error) {
+			d, e := parser.ParseSchema(&ast.Source{Input: text, Name: "t", BuiltIn: true})
+			return d != nil, e
+		}},
+		{"ParseSchemas(source, built-in source)", func() (bool, error) {
+			d, e := parser.ParseSchemas(&ast.Source{Input: "scalar S", Name: "p"}, &ast.Source{Input: text, Name: "t", BuiltIn: true})
+			return d != nil, e
+		}},
 		// a negative limit is a finite limit too: no input has that few tokens
 		{"ParseQueryWithTokenLimit(-1)", func() (bool, error) { d, e := parser.ParseQueryWithTokenLimit(src(), -1); return d != nil, e }},
 	}
@@ -488,7 +497,7 @@ func mutateBytes(s string, r *rand.Rand) string {
 }
 
 func checkC01(c *core.Ctx) {
-	c.Rule = "inputs are (a) every byte string up to the bound over 17 bytes chosen to hit truncated escapes, stray BOM prefixes, lone continuation bytes, CR before EOF, unterminated (block) strings; (b) seeded byte-level mutations (truncate at any offset, bit flip, delete, splice, insert of partial UTF-8 / BOM / quote / escape material) of the repository's own test inputs and of generated documents; (c) size-parametrised adversarial families to 64 KiB without a limit. Every input runs through the lexer loop and the six parser entry points in a child process (a crash or hang is attributed to its input); outcomes, error positions and hook-H1 work counters are validated by Total_Trace. Non-trivial = inputs of at least two tokens before the end on which at least one entry point returns a located syntax error or a document; distinct by bytes"
+	c.Rule = "inputs are (a) every byte string up to the bound over 17 bytes chosen to hit truncated escapes, stray BOM prefixes, lone continuation bytes, CR before EOF, unterminated (block) strings; (b) seeded byte-level mutations (truncate at any offset, bit flip, delete, splice, insert of partial UTF-8 / BOM / quote / escape material) of the repository's own test inputs and of generated documents; (c) size-parametrised adversarial families to 64 KiB without a limit. Every input runs through the lexer loop and nine parser entry points (both grammars without and with a limit, a negative limit, sources flagged built-in) in a child process (a crash or hang is attributed to its input); outcomes, error positions and hook-H1 work counters are validated by Total_Trace. Non-trivial = inputs of at least two tokens before the end on which at least one entry point returns a located syntax error or a document; distinct by bytes"
 	c.Assumptions = []string{
 		"termination and absence of panics / fatal errors are observed on the Go runtime (child process, 20 s per case inactivity watchdog, re-run not needed because a hang is deterministic here); the specification decides well-formedness of what was returned",
 		"the polynomial time bound is checked on the deterministic counters of hook H1 (lexer calls, next() calls) against the token count, not on seconds",
@@ -637,7 +646,7 @@ func checkC01(c *core.Ctx) {
 			c.Sample(map[string]any{"input": descr(i), "outcomes": tc.Outs})
 		}
 	})
-	c.Logf("ran %d inputs (%d exhaustive up to %d bytes, %d corpus+mutations, %d size-family cases) through the lexer and 6 parser entry points", len(lines), nExh, maxLen, nSmall-nExh, len(reqs)-nSmall)
+	c.Logf("ran %d inputs (%d exhaustive up to %d bytes, %d corpus+mutations, %d size-family cases) through the lexer and 9 parser entry points", len(lines), nExh, maxLen, nSmall-nExh, len(reqs)-nSmall)
 	cfg := "SPECIFICATION Spec\nCONSTANTS\n  Devs = " + core.DevSetTLA(devs) + "\nCHECK_DEADLOCK FALSE\n"
 	bad, ok := RunTrace(c, TraceJob{Module: "Total_Trace", CfgText: cfg, Lines: lines, Events: events, Shards: 14, Stack: "512m", Heap: "3g", Timeout: 20 * time.Minute})
 	if ok {
